@@ -344,7 +344,8 @@ func textCoq(s string) string { return hx.Str(s) }
 // date comparisons on last_seen_on (model: QLastSeenCmp k, per-instant table from the real evaluator).  The dates are
 // months away from every instant the generators use, so the answer does not depend on the time zone the engine
 // happens to evaluate in (session environment at start/resume, contact-merged environment inside modifiers.Apply)
-var seenCmpQueries = []string{`last_seen_on > "2022-06-15"`, `last_seen_on < "2022-06-15"`, `last_seen_on > "2027-06-15"`, `last_seen_on <= "2027-06-15"`}
+var seenCmpQueries = []string{`last_seen_on > "2022-06-15"`, `last_seen_on < "2022-06-15"`, `last_seen_on > "2027-06-15"`, `last_seen_on <= "2027-06-15"`,
+	`last_seen_on = "2024-05-06"`} // the last one only in the F6d corpus scenarios: its day differs between UTC and Africa/Kigali at 23:30Z
 
 // queries inside the fragment of model/Groups.v
 var fragmentQueries = []qdef{
